@@ -152,6 +152,16 @@ class Harness:
                 return True
             if d.is_real_valued():
                 return self.ctx.check(full, d == 0, detail=detail)
+            if self.ctx.pc:
+                # complex-valued difference on a path with a path condition: decide real and imaginary parts under that condition
+                re, im = d.real, d.imag
+                cond = None
+                for part in (re, im):
+                    if part.is_zero():
+                        continue
+                    e = (part == 0)
+                    cond = e if cond is None else (cond & e)
+                return self.ctx.check(full, cond, detail=detail + f" difference {d}")
             w = qsem.find_witness([d], self.ctx.inputs)
             if w:
                 self.ctx.fail_numeric(full, w[1], detail + f" difference {d}")
@@ -203,14 +213,7 @@ class Harness:
             if not w:
                 continue
             vals = w[1]
-            s = ctx._solver()
-            for name, p in ctx.inputs.items():
-                if isinstance(p, Poly) and name in vals:
-                    from fractions import Fraction
-                    fr = Fraction(vals[name]).limit_denominator(10 ** 6)
-                    s.add(p.to_z3() == z3.RealVal(f"{fr.numerator}/{fr.denominator}"))
-            # trig atoms are tied to their angles only numerically: drop them from the feasibility query
-            if s.check() != z3.unsat:
+            if ctx.point_feasible(vals):
                 return vals
         # ask the solver for a point on the path and perturb
         m = ctx.feasible_model()
@@ -230,6 +233,40 @@ class Harness:
 
     def done(self):
         self.reached_end = True
+
+
+# ---------------------------------------------------------------------------------------------------------------------
+# opaque sampler: scipy's rv_discrete(values=(xk, pk)).rvs replaced (inside the interpreter only) by a recorded, chosen draw
+
+import contextlib
+
+
+@contextlib.contextmanager
+def opaque_sampler(draw):
+    """inside the block, `distr.rvs(size=s)` of a scipy rv_discrete built from values=(xk, pk) returns draw(xk, pk, s, call_index): the code under contract must
+    be right for whichever sample sequence over the support the sampler returns; the calls are recorded in the yielded list as (xk, pk, size)"""
+    import numpy as np
+    from scipy import stats
+    from . import interp as _i
+    calls = []
+
+    def fake_rvs(interp, f, args, kw):
+        size = kw.get("size", args[0] if args else None)
+        d = getattr(f, "__self__", None)
+        xk, pk = np.array(d.xk), np.array(d.pk)
+        calls.append((xk, pk, size))
+        out = draw(xk, pk, size, len(calls) - 1)
+        return np.array(out, dtype=np.int64)
+    cls = type(stats.rv_discrete(name="x", values=(np.array([0]), np.array([1.0]))))
+    old = _i._MODELS.get(id(cls.rvs))
+    _i._MODELS[id(cls.rvs)] = fake_rvs
+    try:
+        yield calls
+    finally:
+        if old is None:
+            _i._MODELS.pop(id(cls.rvs), None)
+        else:
+            _i._MODELS[id(cls.rvs)] = old
 
 
 # ---------------------------------------------------------------------------------------------------------------------
